@@ -194,6 +194,15 @@ OptdimsStimuli ==
 CtorSptenmatNegStimuli ==
   {St("ctor_sptenmat_neg", [minrow |-> r, mincol |-> c], IF r >= 0 /\ c >= 0 THEN "ok" ELSE "nonneg") : r \in {0, 0 - 1}, c \in {0, 0 - 2}}
 
+\* symmetry groups: disjoint sets of modes; overlaps between neighbouring and between non-neighbouring groups
+SymGroupStimuli ==
+  {St("sym_groups", [N |-> 5, grps |-> g[1], version |-> v], g[2]) :
+     g \in {<< <<<<0, 1>>, <<2, 3>>>>, "ok" >>, << <<<<0, 1>>, <<2, 3>>, <<4, 0>>>>, "groups_disjoint" >>,
+            << <<<<0, 1>>, <<1, 2>>>>, "groups_disjoint" >>, << <<<<0>>, <<1>>, <<0>>>>, "groups_disjoint" >>,
+            << <<<<0, 4>>, <<1, 3>>, <<3, 2>>>>, "groups_disjoint" >>, << <<<<0, 1, 2>>>>, "ok" >>,
+            << <<<<0, 0>>>>, "groups_disjoint" >>, << <<<<0, 5>>>>, "modes_in_range" >>, << <<<<3, 1>>, <<4, 2>>>>, "ok" >>},
+     v \in {0, 1}}
+
 All ==
   (IF "ttv" \in Fams THEN TtvStimuli ELSE {}) \cup (IF "ttm" \in Fams THEN TtmStimuli ELSE {})
   \cup (IF "mttkrp" \in Fams THEN {x \in MttkrpStimuli : MttkrpOk(x)} ELSE {})
@@ -204,7 +213,7 @@ All ==
   \cup (IF "more" \in Fams THEN ArrangeStimuli \cup UpdateStimuli \cup SpReshapeStimuli \cup CtorTenmatStimuli
                                \cup CtorSptenmatStimuli \cup CtorSpNegStimuli ELSE {})
   \cup (IF "args" \in Fams THEN ModeArgStimuli \cup UpdateRepStimuli \cup UpdateWeightsStimuli \cup ReconstructStimuli \cup TuckerRankStimuli
-                               \cup OptdimsStimuli \cup CtorSptenmatNegStimuli ELSE {})
+                               \cup OptdimsStimuli \cup CtorSptenmatNegStimuli \cup SymGroupStimuli ELSE {})
 
 \* keep the well-formed requests and those violating exactly one clause
 \* keep the well-formed requests and those violating at most two clauses (single-clause violations
